@@ -333,6 +333,15 @@ def dispatch2 (op : String) (args : List SExp) : Option String :=
         let should := i == .setTrue || (k == .valid && (r == .correctPem || r == .correctDer))
         s!"{show_ (accepts c b i r k)} ## {show_ should}"
       | _, _, _, _, _ => "(bad-arg)")
+  | "thmunser", [w, .atom p] =>
+    some (match readWMsg w, hexToBytes p with
+     | some w, some pay =>
+        if !Spec.wfWire w then "notwf" else
+        (match Spec.unser (Spec.ser w ++ pay) with
+         | some (w', rest) => if Spec.ser w' == Spec.ser w && rest == pay && w'.groups.length == w.groups.length &&
+             (w'.groups.map fun g => g.attrs.map fun a => a.vals.length) == (w.groups.map fun g => g.attrs.map fun a => a.vals.length) then "eq" else "DIFF"
+         | none => "NONE")
+     | _, _ => "(bad-arg)")
   | "thm10", [.atom k, .atom _, .atom j, .atom p, .list (.atom "calls" :: calls), c] =>
     some (match opKindOf k, hexToNat j, hexToBytes p, calls.mapM readCall, readComponents c with
      | some k, some j, some p, some calls, some u =>
